@@ -19,7 +19,8 @@ TRUSTED_BASE = ['hand-written Gallina model coq/Ext/Model.v of get_meta / meta_v
                 'header.get_dim_info()[2], header.get_n_slices() = shape[slice_dim], img.affine are read',
                 'np.allclose(a, b, atol=1e-6) modelled exactly in Q as |a-b| <= atol + 1e-5*|b| (generators stay a factor >= 8 '
                 'away from the boundary, geometry is dyadic)']
-ASSUMPTIONS = ['the extension is valid and nondegenerate (NiftiWrapper.__init__ enforces check_valid)',
+ASSUMPTIONS = ['the extension is valid and nondegenerate (NiftiWrapper.__init__ enforces check_valid); in lookup_hist the in-place '
+               'edits keep it valid (setters of affine, slice_dim between axes of equal extent, in-plane shape; replace_extension)',
                'index entries are Python ints; image is 3-5 D with slice dim_info in {None,0,1,2}',
                'Python == on values coincides with structural equality']
 
@@ -219,3 +220,256 @@ def shrink(case):
             c = dict(case)
             c['ext'] = F
             yield c
+
+
+# ------------------------------------------------------------------------------------------ part 1 as a namespace
+
+class Lookup:
+    NAME = 'lookup'
+    CORR_REQUIRE, CORR_CASE_TYPE, CORR_CHECK, CORR_SHOW = CORR_REQUIRE, CORR_CASE_TYPE, CORR_CHECK, CORR_SHOW
+    SHARD, IMPL_TIMEOUT, RULE = SHARD, IMPL_TIMEOUT, RULE
+    gen_cases = staticmethod(gen_cases)
+    run_impl = staticmethod(X.run_lookup)
+    coq_case = staticmethod(coq_case)
+    oracle = staticmethod(oracle)
+    signature = staticmethod(signature)
+    nontrivial = staticmethod(nontrivial)
+    shrink = staticmethod(shrink)
+
+
+# ------------------------------------------------------------------------------------------ part 2: lookup histories
+# ONE NiftiWrapper object; 2-4 steps, each = optional in-place perturbation of image / header / extension followed by
+# lookups.  The model is a pure function of the CURRENT (image, extension) state, so the correspondence at every step
+# is the formal content of "no hidden lookup state"; the oracle additionally compares every answer with a freshly
+# constructed wrapper in the same state.
+
+def _apply_pert(w, pert, np, dcmmeta):
+    op = pert['op']
+    nii = w.nii_img
+    hdr = nii.header
+    if op == 'dim_info':
+        hdr.set_dim_info(slice=pert['slice'])
+    elif op == 'aff_set':                         # in place, through the array the image hands out
+        nii.affine[...] = np.array(pert['aff'], dtype=float)
+        try:
+            hdr.set_sform(nii.affine, code='aligned')
+            hdr.set_qform(nii.affine, code='unknown')
+        except Exception:                         # noqa: BLE001  (qform cannot hold every matrix; irrelevant to lookups)
+            pass
+    elif op == 'ext_affine':
+        w.meta_ext.affine = np.array(pert['aff'], dtype=float)
+    elif op == 'ext_slice_dim':
+        w.meta_ext.slice_dim = pert['sdim']
+    elif op == 'ext_shape':
+        w.meta_ext.shape = pert['shape']
+    elif op == 'replace_ext':
+        w.replace_extension(X.build_ext(pert['ext']))
+    elif op != 'none':
+        raise ValueError('unknown perturbation %r' % op)
+
+
+def _answers(w, key, idx):
+    import copy as _copy
+    out = {'get': X._guard(lambda: {'val': X._plain(w.get_meta(key, None if idx is None else tuple(idx), _copy.deepcopy(DEFAULT)))}),
+           'item': X._guard(lambda: {'val': X._plain(w[key])}), 'mv': []}
+    for name in X.CLASSES:
+        try:
+            out['mv'].append(bool(w.meta_valid(X.PYCLS[name])))
+        except Exception as e:                    # noqa: BLE001
+            out['mv'].append('exc:' + type(e).__name__)
+    return out
+
+
+def _fresh(E, img):
+    """A newly constructed wrapper in the given state (constructed around an empty extension, then the extension is
+    swapped in, so that the constructor's check_valid never stands in the way)."""
+    np, dcmmeta = X._imports()
+    w = X.build_wrapper(X.mk_E(img['shape'], img['slice'], img['aff'], {}), img)
+    w.replace_extension(X.build_ext(E))
+    return w
+
+
+def run_hist(case):
+    np, dcmmeta = X._imports()
+    w = X.build_wrapper(case['ext'], case['img'])
+    steps = []
+    for st in case['steps']:
+        _apply_pert(w, st['pert'], np, dcmmeta)
+        sl = w.nii_img.header.get_dim_info()[2]
+        img = {'shape': [int(x) for x in w.nii_img.shape], 'slice': None if sl is None else int(sl),
+               'aff': [[float(x) for x in row] for row in w.nii_img.affine]}
+        E = X.ext_to_json(w.meta_ext)
+        fr = _fresh(E, img)
+        ans = []
+        for key, idx in st['queries']:
+            ans.append({'live': _answers(w, key, idx), 'fresh': _answers(fr, key, idx)})
+        steps.append({'img': img, 'ext': E, 'answers': ans})
+    return {'steps': steps}
+
+
+def _aff_variants(rng, aff, sd):
+    a = copy.deepcopy(aff)
+    kind = rng.choice(['flip', 'swap_rows', 'rescale', 'swap_cols', 'tiny', 'small'])
+    r = sd if sd is not None else rng.randrange(3)
+    if kind == 'flip':
+        a[r] = [-x for x in a[r][:3]] + a[r][3:]
+    elif kind == 'swap_rows':
+        o = rng.choice([d for d in range(3) if d != r])
+        a[r], a[o] = a[o], a[r]
+    elif kind == 'rescale':
+        a[r] = [2.0 * x for x in a[r][:3]] + a[r][3:]
+    elif kind == 'swap_cols':
+        i, j = rng.sample(range(3), 2)
+        for row in a[:3]:
+            row[i], row[j] = row[j], row[i]
+    else:
+        a[r][rng.randrange(3)] += (2.0 ** -23 if kind == 'tiny' else 2.0 ** -12) * rng.choice([1, -1])
+    return a, kind
+
+
+def gen_hist_cases(rng, tier):
+    n = 90 if tier == 'quick' else 700
+    cases = []
+    for _ in range(n):
+        E = X.gen_ext(rng, tier, nkeys=rng.randint(1, 3), widen=rng.choice([0.0, 0.4]),
+                      aff=X.gen_affine(rng, rng.choice(['dense', 'dense', 'perm'])), patterns=X.BASE_PATTERNS[1:])
+        d = X.dims(E)
+        ents = X.entry_map(E)
+        for name, pat in (('PerVolume', 'vol'), ('PerSliceTime', 'slice_time'), ('PerSlice', 'slice'), ('Irregular', 'irregular')):
+            enc = X.encode(rng, E['shape'], E['sdim'], X.gen_fn(rng, d, pat, alphabet=list(range(40))), 0.2)
+            if enc is not None:
+                ents[name] = enc
+        E = X.mk_E(E['shape'], E['sdim'], E['aff'], ents)
+        img = {'shape': list(E['shape']), 'slice': E['sdim'], 'aff': copy.deepcopy(E['aff'])}
+        keys = [k for k, _, _ in E['entries']]
+        cur_slice, cur_aff, cur_E = img['slice'], img['aff'], E
+        steps, kinds = [], []
+        for si in range(rng.randint(2, 4)):
+            r = rng.random()
+            pert = {'op': 'none'}
+            if si > 0 or r < 0.3:
+                op = rng.choice(['dim_info', 'dim_info', 'aff_set', 'aff_set', 'restore', 'ext_affine', 'ext_slice_dim',
+                                 'ext_shape', 'replace_ext'])
+                if op == 'dim_info':
+                    cur_slice = rng.choice([x for x in (None, 0, 1, 2) if x != cur_slice])
+                    pert = {'op': 'dim_info', 'slice': cur_slice}
+                elif op == 'aff_set':
+                    cur_aff, k = _aff_variants(rng, cur_aff, cur_slice)
+                    pert = {'op': 'aff_set', 'aff': cur_aff, 'how': k}
+                elif op == 'restore':
+                    # back to a matching image: answers must come back too
+                    cur_aff, cur_slice = copy.deepcopy(cur_E['aff']), cur_E['sdim']
+                    steps.append({'pert': {'op': 'dim_info', 'slice': cur_slice}, 'queries': []})
+                    pert = {'op': 'aff_set', 'aff': cur_aff, 'how': 'restore'}
+                elif op == 'ext_affine':
+                    a, k = _aff_variants(rng, cur_E['aff'], cur_E['sdim'])
+                    cur_E = dict(cur_E, aff=a)
+                    pert = {'op': 'ext_affine', 'aff': a, 'how': k}
+                elif op == 'ext_slice_dim' and cur_E['sdim'] is not None:
+                    alts = [x for x in range(3) if x != cur_E['sdim'] and cur_E['shape'][x] == cur_E['shape'][cur_E['sdim']]]
+                    if alts:
+                        cur_E = dict(cur_E, sdim=rng.choice(alts))
+                        pert = {'op': 'ext_slice_dim', 'sdim': cur_E['sdim']}
+                elif op == 'ext_shape':
+                    sh = list(cur_E['shape'])
+                    for ax in range(3):
+                        if ax != cur_E['sdim']:
+                            sh[ax] = rng.randint(1, 4)
+                    cur_E = dict(cur_E, shape=sh)
+                    pert = {'op': 'ext_shape', 'shape': sh}
+                elif op == 'replace_ext':
+                    sh2 = list(cur_E['shape'])
+                    if len(sh2) > 3 and rng.random() < 0.5:
+                        ax = rng.randrange(3, len(sh2))
+                        sh2[ax] = max(2, sh2[ax] + rng.choice([1, -1]))
+                    E2 = X.gen_ext(rng, tier, shape=sh2, sdim=cur_E['sdim'], aff=cur_E['aff'], nkeys=2,
+                                   patterns=X.BASE_PATTERNS[1:])
+                    ents2 = X.entry_map(E2)
+                    for name, pat in (('PerVolume', 'vol'), ('PerSlice', 'slice')):
+                        enc = X.encode(rng, sh2, E2['sdim'], X.gen_fn(rng, X.dims(E2), pat, alphabet=list(range(50, 90))), 0.0)
+                        if enc is not None:
+                            ents2[name] = enc
+                    cur_E = X.mk_E(sh2, E2['sdim'], E2['aff'], ents2)
+                    pert = {'op': 'replace_ext', 'ext': cur_E}
+            kinds.append(pert.get('how') or pert['op'])
+            qkeys = sorted(set(keys + [k for k, _, _ in cur_E['entries']]))
+            queries = []
+            for k in qkeys:
+                for _ in range(1 if len(qkeys) > 4 else 2):
+                    idx, _ik = gen_index(rng, img['shape'])
+                    queries.append([k, idx])
+            steps.append({'pert': pert, 'queries': queries})
+        cases.append({'kind': 'hist/' + '+'.join(kinds), 'ext': E, 'img': img, 'steps': steps})
+    return cases
+
+
+class LookupHist:
+    NAME = 'lookup_hist'
+    CORR_REQUIRE = 'From DV Require Import Common.Jv Ext.Types Ext.Model Ext.Corr.'
+    CORR_CASE_TYPE = 'list lookup_case'
+    CORR_CHECK = 'forallb check_lookup'
+    CORR_SHOW = 'map run_lookup'
+    SHARD = 25
+    IMPL_TIMEOUT = 40
+    RULE = ('ONE NiftiWrapper object, 2-4 steps; each step = optional IN-PLACE perturbation (header set_dim_info slice entry changed '
+            '/ removed / restored; image affine overwritten in place through nii_img.affine[...] with rows flipped / swapped / '
+            'rescaled, columns swapped, moved within / beyond tolerance, or restored, plus set_sform / set_qform; extension '
+            'affine / slice_dim / shape setters; replace_extension with another valid extension, possibly of other T / V) followed '
+            'by get_meta / meta_valid / __getitem__ of every key at sampled indices; each answer is compared (a) with a freshly '
+            'constructed wrapper in the same state, (b) with the C08 statements for the current state, (c) in Coq with the '
+            'model applied to the current state')
+
+    gen_cases = staticmethod(gen_hist_cases)
+    run_impl = staticmethod(run_hist)
+
+    @staticmethod
+    def coq_case(case, obs):
+        items = []
+        for st_c, st_o in zip(case['steps'], obs.get('steps', [])):
+            for (key, idx), a in zip(st_c['queries'], st_o['answers']):
+                q = {'ext': st_o['ext'], 'img': st_o['img'], 'key': key, 'index': idx, 'default': DEFAULT}
+                items.append(X.lookup_case_to_coq(q, a['live']))
+        return X.clist(items)
+
+    @staticmethod
+    def oracle(case, obs):
+        if 'crash' in obs:
+            return 'harness: %s: %s' % (obs.get('crash'), obs.get('msg'))
+        for si, (st_c, st_o) in enumerate(zip(case['steps'], obs['steps'])):
+            for (key, idx), a in zip(st_c['queries'], st_o['answers']):
+                if a['live'] != a['fresh']:
+                    return ('step %d (%s): lookup of %r at %r on the used wrapper gives %r but a fresh wrapper in the same state '
+                            'gives %r' % (si, st_c['pert']['op'], key, idx, _short(a['live']), _short(a['fresh'])))
+                q = {'ext': st_o['ext'], 'img': st_o['img'], 'key': key, 'index': idx, 'default': DEFAULT}
+                m = oracle(q, a['live'])
+                if m:
+                    return 'step %d (%s): %s' % (si, st_c['pert']['op'], m)
+        return None
+
+    @staticmethod
+    def signature(case, obs, msg):
+        return 'lookup-history/' + ('stateful' if 'fresh wrapper' in msg else 'wrong-answer')
+
+    @staticmethod
+    def nontrivial(case, obs):
+        return any(st['pert']['op'] != 'none' for st in case['steps'])
+
+    @staticmethod
+    def shrink(case):
+        if len(case['steps']) > 1:
+            for i in range(len(case['steps'])):
+                c = copy.deepcopy(case)
+                c['steps'][i]['queries'] = []
+                if any(st['queries'] for st in c['steps']):
+                    yield c
+        for F in X.shrink_E(case['ext']):
+            c = dict(case)
+            c['ext'] = F
+            yield c
+
+
+def _short(a):
+    return {'get': a['get'].get('val', a['get'].get('exc')), 'mv': a['mv'], 'item': a['item'].get('val', a['item'].get('exc'))}
+
+
+PARTS = [Lookup, LookupHist]
